@@ -142,10 +142,11 @@ def repaired (m2m owning : Bool) : Cfg := ⟨m2m, owning, true, true⟩
 def asFound (m2m owning : Bool) : Cfg := ⟨m2m, owning, false, false⟩
 
 /-- `C10_count`, the full statement: for every kind of collection, every starting database content and every history of
-    loads, relationship assignments from the other side, `add`, `remove`, `len`, `count()`, membership tests and flushes made
-    under their callers' guarantees, every `count()` and every `len()` returns the number of items the program has in the
-    collection (= the size of the collection in the database after a flush) and every `item in coll` returns whether the
-    program has the item in it -/
+    loads, relationship assignments from the other side, `add`, `remove`, `len`, `count()`, `is_empty()`, `bool()`,
+    `select()`, membership tests and flushes made under their callers' guarantees, every `count()`, `len()` and
+    `len(coll.select())` returns the number of items the program has in the collection (= the size of the collection in the
+    database after a flush), `is_empty()` / `bool()` whether that number is zero, and every `item in coll` whether the program
+    has the item in it -/
 def C10_count_full (cfg : Cfg) : Prop :=
   ∀ (db : List Item) (ops : List Op), db.Nodup → CallersOk cfg ⟨SetData.new, db⟩ db ops →
     ∀ c l rs, run cfg ⟨SetData.new, db⟩ db ops = .ok (c, l, rs) → ∀ p, p ∈ rs → p.1 = p.2
@@ -222,6 +223,18 @@ example : (run (repaired true true) ⟨SetData.new, [1]⟩ [1] [.contains 2, .ad
     = some ([2], [2]) := by decide
 example : (run (repaired true false) ⟨SetData.new, [1]⟩ [1] [.contains 2, .revAdd 2, .contains 2]).toOption.map (·.2.2)
     = some [(0, 0), (1, 1)] := by decide
+
+/-- every read form of the model in one many-to-many history (collection not loaded at the start, database holds {1, 2}):
+    `is_empty()` asks the database and gets item 1, the item is removed, `bool()` loads the rest, item 2 is unlinked from the
+    other side, `is_empty()` now answers from the fully loaded SetData, `select()` flushes and reads the rows -/
+example : CallersOk (repaired true true) ⟨SetData.new, [1, 2]⟩ [1, 2]
+    [.isEmpty (some 1), .remove 1, .count, .nonzero, .revRemove 2, .isEmpty none, .nonzero, .select, .add 3, .select, .isEmpty none] := by decide
+example : (run (repaired true true) ⟨SetData.new, [1, 2]⟩ [1, 2]
+    [.isEmpty (some 1), .remove 1, .count, .nonzero, .revRemove 2, .isEmpty none, .nonzero, .select, .add 3, .select, .isEmpty none]).toOption.map (·.2.2)
+    = some [(0, 0), (1, 1), (1, 1), (1, 1), (0, 0), (0, 0), (1, 1), (0, 0)] := by decide
+/-- `is_empty()` on an unloaded empty collection makes it fully loaded with count 0 -/
+example : (run (repaired false true) ⟨SetData.new, []⟩ [] [.isEmpty none, .count]).toOption.map (fun r => (r.1.sd.fully, r.1.sd.count, r.2.2))
+    = some (true, some 0, [(1, 1), (0, 0)]) := by decide
 
 /-- a one-to-many history with `remove`s, on the repaired code: hypotheses satisfiable, reads right -/
 example : CallersOk (repaired false false) ⟨SetData.new, [5]⟩ [5]
